@@ -312,6 +312,13 @@ def run(ctx):
                 pair = [rng.choice(singles), rng.choice(singles)]
                 one(rng.choice(["buf", "bytesio"]), data, pair, 0)
                 one("gen", data, pair, compositions(L, True, rng, 1)[0])
+                # the same list as a client writes it: optional white space
+                # around the commas (RFC 9110 5.6.1)
+                spec = ["%s-%s" % ("" if f is None else f,
+                                   "" if l is None else l) for f, l in pair]
+                sep = rng.choice([",", ", ", " , ", ",\t", " ,"])
+                one("e2e", data, pair, hdr={"Range": "bytes=" +
+                                            sep.join(spec)})
         # random large
         for _ in range(20 if ctx.quick else 300):
             L = rng.choice([1, 2, 100, 1000, 65536, 10 ** 5]) \
